@@ -1885,6 +1885,10 @@ def sequence_to_pianoroll(
           onset_start_time, onset_end_time)
     else:
       raise ValueError('Unknown onset mode: {}'.format(onset_mode))
+    # A negative onset_delay_ms can move the onset before the start of the roll;
+    # clamp so that the slices below do not wrap around.
+    onset_start_frame = max(0, onset_start_frame)
+    onset_end_frame = max(0, onset_end_frame)
 
     # label offset events.
     offset_start_time = min(note.end_time,
